@@ -692,7 +692,7 @@ class Frame:
         if isinstance(base_node, ast.Name) and base_node.id not in self.env and self.ctx.model.resolve(self.mod, base_node.id) is None \
                 and base_node.id not in self.ctx.model.modassign.get(self.mod, {}):
             # store into a name that is not bound on this path: python raises NameError
-            self.ctx.raises.append(('NameError', self.guard(), self.where(node)))
+            self.ctx.raises.append(('NameError', self.guard(), self.where(node), 'implicit'))
             self.ctx.event('nameerror', base_node.id, guard=self.guard(), where=self.where(node))
             self.env[base_node.id] = ('opaque', f'NameError: {base_node.id} is not defined')
             return
@@ -815,7 +815,7 @@ class Frame:
             return C({'True': True, 'False': False, 'None': None}[n.id])
         import builtins
         if not hasattr(builtins, n.id):
-            self.ctx.raises.append(('NameError', self.guard(), self.where(n)))
+            self.ctx.raises.append(('NameError', self.guard(), self.where(n), 'implicit'))
             self.ctx.event('nameerror', n.id, guard=self.guard(), where=self.where(n))
             return ('opaque', f'NameError: {n.id} is not defined')
         return ('builtin', n.id)
@@ -987,12 +987,18 @@ class Frame:
             m = self.ctx.model.lookup_method(self.ctx.heap[b[1]]['cls'], a)
             if m is not None:
                 return ('boundmethod', b, m.qual)
+            if a == '__class__':
+                return ('classref', self.ctx.heap[b[1]]['cls'])
+            if a.startswith('__') and a.endswith('__'):
+                return ('attr', b, a)                      # every object has its dunder attributes
             if self.ctx.heap[b[1]].get('constructed'):
                 # the attribute was never assigned: AttributeError (or unbounded recursion through a __getattr__ that reads it)
-                self.ctx.raises.append(('AttributeError', self.guard(), self.where(n)))
+                self.ctx.raises.append(('AttributeError', self.guard(), self.where(n), 'implicit'))
                 self.ctx.event('attributeerror', a, (b,), guard=self.guard(), where=self.where(n))
                 raise RaisedInCallee(f'missing attribute {a}')
             return ('attr', b, a)
+        if b[0] == 'classref' and a == '__name__':
+            return C(b[1].rsplit('.', 1)[-1])
         if b[0] == 'extref':
             return ('extref', f'{b[1]}.{a}')
         if b[0] == 'modref':
